@@ -401,6 +401,23 @@ func CheckC16(k *sim.Kernel, rr *RelayRun, hls *HlsTracker) {
 				k.Violate("C16.stale-data", "cons%d(%s) joined after publisher incarnation %d had left, yet item #%d %s comes from it", ci, c.Plan.Proto, inc, j, describe(&it))
 			}
 		}
+		if c.Http != nil && (c.Plan.Proto == "ts" || c.Plan.Proto == "wsts") && len(c.Http.TsBytes) >= 188 && len(dead) > 0 {
+			// the same for HTTP-TS players: every frame in the TS stream carries its origin in its bytes
+			tc := ParseTs(c.Http.TsBytes)
+			for j, v := range tc.Video {
+				for _, n := range v.Nals {
+					if inc, _, _, ok := media.ParseID(n); ok && dead[inc] {
+						k.Violate("C16.stale-data", "cons%d(%s) joined after publisher incarnation %d had left, yet video frame #%d of its TS stream comes from it", ci, c.Plan.Proto, inc, j)
+					}
+				}
+			}
+			for j, a := range tc.Audio {
+				if inc, _, _, ok := media.ParseID(a.Data); ok && dead[inc] {
+					k.Violate("C16.stale-data", "cons%d(%s) joined after publisher incarnation %d had left, yet audio frame #%d of its TS stream comes from it", ci, c.Plan.Proto, inc, j)
+				}
+			}
+			k.Probe("c16_ts_stale_checked")
+		}
 	}
 	// 5a. ... nor its codec information: a consumer that joins between a video incarnation and an audio-only one must not
 	// be left waiting for a key frame that will never come
